@@ -42,6 +42,9 @@ Definition raw_resize (r : raw) (new_len : N) (value : bool) : res raw :=
 
 Definition raw_clear (r : raw) : raw := raw_new.
 
+(* reserve() only changes the capacity of the Vec, which is not part of the modelled state *)
+Definition raw_reserve (r : raw) (additional : N) : raw := r.
+
 (* AccessRaw *)
 Definition raw_bit (r : raw) (bo : N) : res bool :=
   let '(index, offset) := split_offset bo in
